@@ -265,37 +265,54 @@ pub fn cmd_codec(args: &[String]) {
             }
         }
     }
-    // the byte-string wire forms (from_bytes / from_sealed_bytes), for every container the fixed-length part can be held in -
-    // one with a length of its own (stack array) and one without (Vec): an encoding shorter than the fixed part is refused,
-    // any other decodes to exactly (fixed part, rest) and re-encodes to itself
+    // the byte-string wire forms (from_bytes / from_sealed_bytes): the rows of Codec.tla's WireCases - object x form x holder of
+    // the fixed part (one with a length of its own: stack array; one without: Vec) x every length around the fixed prefix - with
+    // the verdict and the lengths of the decoded parts
     {
         use dryoc::dryocsecretbox::DryocSecretBox as SB;
         use dryoc::dryocbox::DryocBox as DB;
         use dryoc::sign::SignedMessage as SM;
         use dryoc::types::StackByteArray as St;
-        macro_rules! wire_form {
-            ($name:expr, $ovh:expr, $decode:expr) => {
-                for n in 0..=($ovh + 3usize) {
-                    rep.evaluations += 1;
-                    let enc: Vec<u8> = (0..n).map(|i| (i as u8).wrapping_mul(13) | 1).collect();
-                    let r: Result<(Vec<u8>, Vec<u8>), String> = $decode(&enc);
-                    match r {
-                        Ok((_fixed, _rest)) if n < $ovh => rep.fail(&format!("{}: decodes an encoding shorter than its fixed part", $name), json!({"len": n, "fixed": $ovh})),
-                        Ok((fixed, rest)) => { if fixed != enc[..$ovh] || rest != enc[$ovh..] { rep.fail(&format!("{}: decoded parts are not (fixed part, rest)", $name), json!({"len": n})); } }
-                        Err(_) if n < $ovh => {}
-                        Err(e) => rep.fail(&format!("{}: rejects an encoding of sufficient length", $name), json!({"len": n, "err": e})),
+        fn fe(x: dryoc::Error) -> String { format!("{:?}", x) }
+        // decoded parts in wire order, or the decoder's error
+        let decode = |obj: &str, form: &str, holder: &str, e: &[u8]| -> Option<Result<Vec<Vec<u8>>, String>> {
+            Some(match (obj, form, holder) {
+                ("DryocSecretBox", "from_bytes", "sized") => SB::<St<16>, Vec<u8>>::from_bytes(e).map(|b| { let (t, d) = b.into_parts(); vec![t.to_vec(), d] }).map_err(fe),
+                ("DryocSecretBox", "from_bytes", "unsized") => SB::<Vec<u8>, Vec<u8>>::from_bytes(e).map(|b| { let (t, d) = b.into_parts(); vec![t, d] }).map_err(fe),
+                ("DryocBox", "from_bytes", "sized") => DB::<St<32>, St<16>, Vec<u8>>::from_bytes(e).map(|b| { let (t, d, _) = b.into_parts(); vec![t.to_vec(), d] }).map_err(fe),
+                ("DryocBox", "from_bytes", "unsized") => DB::<Vec<u8>, Vec<u8>, Vec<u8>>::from_bytes(e).map(|b| { let (t, d, _) = b.into_parts(); vec![t, d] }).map_err(fe),
+                ("DryocBox", "from_sealed_bytes", "sized") => DB::<St<32>, St<16>, Vec<u8>>::from_sealed_bytes(e).map(|b| { let (t, d, k) = b.into_parts(); vec![k.unwrap().to_vec(), t.to_vec(), d] }).map_err(fe),
+                ("DryocBox", "from_sealed_bytes", "unsized") => DB::<Vec<u8>, Vec<u8>, Vec<u8>>::from_sealed_bytes(e).map(|b| { let (t, d, k) = b.into_parts(); vec![k.unwrap(), t, d] }).map_err(fe),
+                ("SignedMessage", "from_bytes", "sized") => SM::<St<64>, Vec<u8>>::from_bytes(e).map(|b| { let (t, d) = b.into_parts(); vec![t.to_vec(), d] }).map_err(fe),
+                ("SignedMessage", "from_bytes", "unsized") => SM::<Vec<u8>, Vec<u8>>::from_bytes(e).map(|b| { let (t, d) = b.into_parts(); vec![t, d] }).map_err(fe),
+                _ => return None,
+            })
+        };
+        let rows = table["wirecases"].as_array().cloned().unwrap_or_default();
+        if rows.is_empty() { rep.fail("HARNESS: Codec.tla exported no wire-form cases", json!(null)); }
+        for row in rows.iter() {
+            let (obj, form, holder) = (row["obj"].as_str().unwrap(), row["form"].as_str().unwrap(), row["holder"].as_str().unwrap());
+            let n = row["len"].as_u64().unwrap() as usize;
+            let name = format!("{}::{} ({} fixed part)", obj, form, holder);
+            rep.evaluations += 1;
+            let enc: Vec<u8> = (0..n).map(|i| (i as u8).wrapping_mul(13) | 1).collect();
+            match catch(|| decode(obj, form, holder, &enc)) {
+                Ok(None) => rep.fail("HARNESS: wire form of Codec.tla without a dispatch arm", json!(name)),
+                Err(p) => rep.fail(&format!("{}: panics", name), json!({"len": n, "panic": p})),
+                Ok(Some(r)) => {
+                    let want_ok = row["ok"].as_bool().unwrap();
+                    match (r, want_ok) {
+                        (Ok(_), false) => rep.fail(&format!("{}: decodes an encoding shorter than its fixed part", name), json!({"len": n, "fixed": row["prefix"]})),
+                        (Err(e), true) => rep.fail(&format!("{}: rejects an encoding of sufficient length", name), json!({"len": n, "err": e})),
+                        (Err(_), false) => {}
+                        (Ok(parts), true) => {
+                            let want: Vec<usize> = row["parts"].as_array().unwrap().iter().map(|x| x.as_u64().unwrap() as usize).collect();
+                            if parts.iter().map(|p| p.len()).collect::<Vec<_>>() != want || parts.concat() != enc { rep.fail(&format!("{}: decoded parts are not the fixed parts and the rest", name), json!({"len": n, "want": want})); }
+                        }
                     }
                 }
-            };
+            }
         }
-        wire_form!("DryocSecretBox<Stack,Vec>::from_bytes", 16, |e: &[u8]| SB::<St<16>, Vec<u8>>::from_bytes(e).map(|b| { let (t, d) = b.into_parts(); (t.to_vec(), d) }).map_err(|x| format!("{:?}", x)));
-        wire_form!("DryocSecretBox<Vec,Vec>::from_bytes", 16, |e: &[u8]| SB::<Vec<u8>, Vec<u8>>::from_bytes(e).map(|b| b.into_parts()).map_err(|x| format!("{:?}", x)));
-        wire_form!("DryocBox<Stack,Stack,Vec>::from_bytes", 16, |e: &[u8]| DB::<St<32>, St<16>, Vec<u8>>::from_bytes(e).map(|b| { let (t, d, _) = b.into_parts(); (t.to_vec(), d) }).map_err(|x| format!("{:?}", x)));
-        wire_form!("DryocBox<Vec,Vec,Vec>::from_bytes", 16, |e: &[u8]| DB::<Vec<u8>, Vec<u8>, Vec<u8>>::from_bytes(e).map(|b| { let (t, d, _) = b.into_parts(); (t, d) }).map_err(|x| format!("{:?}", x)));
-        wire_form!("DryocBox<Stack,Stack,Vec>::from_sealed_bytes", 48, |e: &[u8]| DB::<St<32>, St<16>, Vec<u8>>::from_sealed_bytes(e).map(|b| { let (t, d, k) = b.into_parts(); ([k.unwrap().to_vec(), t.to_vec()].concat(), d) }).map_err(|x| format!("{:?}", x)));
-        wire_form!("DryocBox<Vec,Vec,Vec>::from_sealed_bytes", 48, |e: &[u8]| DB::<Vec<u8>, Vec<u8>, Vec<u8>>::from_sealed_bytes(e).map(|b| { let (t, d, k) = b.into_parts(); ([k.unwrap(), t].concat(), d) }).map_err(|x| format!("{:?}", x)));
-        wire_form!("SignedMessage<Stack,Vec>::from_bytes", 64, |e: &[u8]| SM::<St<64>, Vec<u8>>::from_bytes(e).map(|b| { let (t, d) = b.into_parts(); (t.to_vec(), d) }).map_err(|x| format!("{:?}", x)));
-        wire_form!("SignedMessage<Vec,Vec>::from_bytes", 64, |e: &[u8]| SM::<Vec<u8>, Vec<u8>>::from_bytes(e).map(|b| b.into_parts()).map_err(|x| format!("{:?}", x)));
     }
     // password-hash objects over the whole cost domain (no hashing: from_parts): to_string then from_string gives the same
     // configuration back, at and beyond the 4 GiB mark where a 32-bit byte count wraps
